@@ -64,7 +64,7 @@ def run(ck):
     ck.prove()
     rng = ck.rng("renames")
     exprs, keys = [], []
-    for _ in range(ck.n(60, 1500)):
+    for _ in range(ck.n(120, 1500)):
         w = gen_workload.random_workload(rng)
         tensors = sorted({t for e in w for t, _, _ in e})
         names = list(range(4))
@@ -92,7 +92,8 @@ def run(ck):
             if tab:
                 k, t, c = tab[0]
                 ns, al = c22.named_sets(w, wrong_in)
-                tab[0] = (k, t, len(c22.oracle_eval(t, ns, al)) + 1)
+                true_n = len(c22.oracle_eval(t, ns, al))
+                tab[0] = (k, t, 0 if (true_n > 0 and rng.random() < 0.5) else true_n + 1)
             else:
                 wrong_in = None
         top_list = ([{"name": "default", "tensor_accesses": as_yaml_list(topd)}] if topd is not None else []) + \
@@ -107,46 +108,59 @@ def run(ck):
         except Exception as ex:  # noqa
             ck.failing_input({"workload": w, "why": f"construction failed: {type(ex).__name__}: {ex}"}, what="spec construction failed")
             continue
-        for i in range(len(w)):
-            ns, al = c22.named_sets(w, i)
-            m = merged(local[i], tope.get(i, []), topd or [])
-            mismatch = any(c is not None and len(c22.oracle_eval(t, ns, al)) != c for _, t, c in m)
-            try:
-                ev = spec._spec_eval_expressions(einsum_name=f"E{i}")
-                ren = ev.workload.einsums[f"E{i}"].renames
-                got = {}
-                for k in names:
-                    try:
-                        got[k] = {int(x[1:]) for x in ren[rname(k)].source.instance}
-                    except KeyError:
-                        got[k] = None
-            except EvaluationError:
-                got = "rejected"
-            except Exception as ex:  # noqa
-                got = f"EXC {type(ex).__name__}: {str(ex)[:100]}"
-            ck.case((json.dumps(w), i, json.dumps([as_yaml_list(local[i]), top_list])), nontrivial=bool(tope.get(i)) and topd is not None,
-                    sample={"einsum": i, "local": as_yaml_list(local[i]), "top_level": top_list})
-            bad = None
-            if mismatch:
-                if got != "rejected":
-                    bad = "an expected_count that does not match was not rejected"
-            elif wrong_in is not None and got == "rejected":
-                pass  # another Einsum of the same workload carries the wrong count: the whole evaluation is rejected
-            elif not isinstance(got, dict):
-                bad = f"evaluation failed: {got}"
-            else:
-                for k in names:
-                    fd = first_defined(k, local[i], tope.get(i, []), topd or [])
-                    exp = None if fd is None else c22.oracle_eval(fd[1], ns, al)
-                    if got[k] != exp:
-                        src = "local" if any(x[0] == k for x in local[i]) else "top-level entry of the Einsum" if any(x[0] == k for x in tope.get(i, [])) else "default"
-                        bad = f"{rname(k)} resolves to {sorted(got[k]) if got[k] is not None else None}, expected {sorted(exp) if exp is not None else None} (from {src})"
-            if bad:
-                ck.failing_input({"workload": w, "einsum": i, "local": as_yaml_list(local[i]), "top_level": top_list, "why": bad}, what="rename resolution: " + bad)
-            wc = gen_workload.to_coq(w)
-            exprs.append("(map (fun n => match resolve %s (nth %d %s []) %s %s %s n with Val s => (0%%nat, s) | Unbound => (1%%nat, []) | Bad => (2%%nat, []) end) [0%%nat; 1%%nat; 2%%nat; 3%%nat])"
-                         % (wc, i, wc, coq_table(local[i]), coq_table(tope.get(i, [])), coq_table(topd or [])))
-            keys.append((w, i, got, wrong_in is not None and not mismatch))
+        snap0 = json.dumps(spec.renames.model_dump(), sort_keys=True, default=str)
+        phases = [(1, topd)]
+        if topd is not None and rng.random() < 0.5:
+            phases.append((2, [(k, t, None) for k, t, _ in gen_table(rng, tensors, names, 0.7)]))
+        for phase, topd in phases:
+          if phase == 2:
+            # evaluation must not have modified the user's spec; then the default entry is replaced IN PLACE and everything is resolved again
+            if json.dumps(spec.renames.model_dump(), sort_keys=True, default=str) != snap0:
+                ck.failing_input({"workload": w, "top_level": top_list, "why": "evaluating the spec modified spec.renames"},
+                                 what="rename resolution: evaluating the spec modified the user's top-level renames (stale entries survive later edits)")
+            idx = [j for j, e in enumerate(spec.renames.einsums) if e.name == "default"][0]
+            spec.renames.einsums[idx] = Renames(einsums=[{"name": "default", "tensor_accesses": as_yaml_list(topd)}]).einsums[0]
+            top_list = [dict(e, tensor_accesses=as_yaml_list(topd)) if e["name"] == "default" else e for e in top_list]
+          for i in range(len(w)):
+              ns, al = c22.named_sets(w, i)
+              m = merged(local[i], tope.get(i, []), topd or [])
+              mismatch = any(c is not None and len(c22.oracle_eval(t, ns, al)) != c for _, t, c in m)
+              try:
+                  ev = spec._spec_eval_expressions(einsum_name=f"E{i}")
+                  ren = ev.workload.einsums[f"E{i}"].renames
+                  got = {}
+                  for k in names:
+                      try:
+                          got[k] = {int(x[1:]) for x in ren[rname(k)].source.instance}
+                      except KeyError:
+                          got[k] = None
+              except EvaluationError:
+                  got = "rejected"
+              except Exception as ex:  # noqa
+                  got = f"EXC {type(ex).__name__}: {str(ex)[:100]}"
+              ck.case((json.dumps(w), i, json.dumps([as_yaml_list(local[i]), top_list])), nontrivial=bool(tope.get(i)) and topd is not None,
+                      sample={"einsum": i, "local": as_yaml_list(local[i]), "top_level": top_list})
+              bad = None
+              if mismatch:
+                  if got != "rejected":
+                      bad = "an expected_count that does not match was not rejected"
+              elif wrong_in is not None and got == "rejected":
+                  pass  # another Einsum of the same workload carries the wrong count: the whole evaluation is rejected
+              elif not isinstance(got, dict):
+                  bad = f"evaluation failed: {got}"
+              else:
+                  for k in names:
+                      fd = first_defined(k, local[i], tope.get(i, []), topd or [])
+                      exp = None if fd is None else c22.oracle_eval(fd[1], ns, al)
+                      if got[k] != exp:
+                          src = "local" if any(x[0] == k for x in local[i]) else "top-level entry of the Einsum" if any(x[0] == k for x in tope.get(i, [])) else "default"
+                          bad = f"{rname(k)} resolves to {sorted(got[k]) if got[k] is not None else None}, expected {sorted(exp) if exp is not None else None} (from {src})"
+              if bad:
+                  ck.failing_input({"workload": w, "einsum": i, "local": as_yaml_list(local[i]), "top_level": top_list, "why": bad}, what="rename resolution: " + bad)
+              wc = gen_workload.to_coq(w)
+              exprs.append("(map (fun n => match resolve %s (nth %d %s []) %s %s %s n with Val s => (0%%nat, s) | Unbound => (1%%nat, []) | Bad => (2%%nat, []) end) [0%%nat; 1%%nat; 2%%nat; 3%%nat])"
+                           % (wc, i, wc, coq_table(local[i]), coq_table(tope.get(i, [])), coq_table(topd or [])))
+              keys.append((w, i, got, wrong_in is not None and not mismatch))
     B = 10
     vals = [v for b in common.run_coq_eval("C29", ["AF.C22.Model", "AF.C29.Model"], ["[" + "; ".join(exprs[k:k + B]) + "]" for k in range(0, len(exprs), B)], chunk=10) for v in b]
     mism = []
